@@ -355,9 +355,10 @@ Definition check_case (T : list func) (C : list cls) (P : list pair)
         match qs with
         | [] => true
         | q0 :: _ =>
-          let paths := seq_paths T C qs in
+          (* paths with a shape the extractor refuses (they already fail the table theorem) are not predictions *)
+          let paths := filter no_bad (seq_paths T C qs) in
           negb (existsb (fun q => must_raise T C q) qs) &&
-          forallb (no_bad) paths &&
+          negb (match paths with [] => true | _ => false end) &&
           forallb (fun bn =>
             match find_pair P cn bn with
             | None => false
